@@ -168,10 +168,28 @@ static void sweep_item(uint64_t i, CaseInfo& ci) {
     for (unsigned m = 3; m <= 5; m++) { mpz_mfac_uiui(r, i, m); REQUIRE(int_from_mpz(r) == ref_mfac(i, m), "mpz_mfac_uiui(%llu,%u)", (unsigned long long)i, m); } }
   if (i < 90 * 95) { uint64_t nn = i / 95, k = i % 95; Int e = k > nn ? Int(0) : ref::tdiv(prod_range(nn - k + 1, nn, 1), ref_mfac(k, 1)); if (k == 0) e = Int(1); mpz_bin_uiui(r, nn, k); REQUIRE(int_from_mpz(r) == e, "mpz_bin_uiui(%llu,%llu)", (unsigned long long)nn, (unsigned long long)k); Z nz; mpz_set_ui(nz, nn); mpz_bin_ui(r, nz, k); REQUIRE(int_from_mpz(r) == e, "mpz_bin_ui(%llu,%llu)", (unsigned long long)nn, (unsigned long long)k); }
 }
-static void check(ByteSource& in, CaseInfo& ci) { switch (in.pick({5, 5, 4, 3, 8, 3})) { case 0: case_fac(in, ci); break; case 1: case_bin(in, ci); break; case 2: case_fib(in, ci); break; case 3: case_remove(in, ci); break; case 4: case_prime(in, ci); break; default: case_nextprime(in, ci); break; } }
+// rare class: arguments in the millions (several blocks of the prime sieve behind primorial / factorial / binomial); the exact value
+// is out of reach for the reference, so the result is compared modulo four 61-bit primes (all > n) and modulo 2^64 is left to the
+// exact tiers: n! = prod i, primorial = prod of primes from an own sieve, bin(n,k) = n!/(k!(n-k)!) with Fermat inverses
+static const uint64_t HP[4] = {2305843009213693951ull, 2305843009213693921ull, 2305843009213693907ull, 2305843009213693723ull};
+static uint64_t mod_limbs(const uint64_t* p, size_t n, uint64_t m) { ref::u128 r = 0; for (size_t i = n; i-- > 0;) r = ((r << 64) | p[i]) % m; return (uint64_t)r; }
+static void case_huge(ByteSource& in, CaseInfo& ci) {
+  unsigned f = in.pick({4, 1, 2}); uint64_t hi = in.scale >= 120 ? 30000000ull : 4000000ull; uint64_t n = in.logrange(100000, f == 1 ? hi / 3 : hi), k = 0;
+  if (f == 2) { k = in.flag() ? n / 2 - in.range(0, n / 8) : in.logrange(1000, n / 2); }
+  ci.label("huge_sieve_argument"); ci.nontrivial = true; ci.d("%s n=%llu k=%llu", f == 0 ? "mpz_primorial_ui" : f == 1 ? "mpz_fac_ui" : "mpz_bin_uiui", (unsigned long long)n, (unsigned long long)k);
+  uint64_t e[4];
+  if (f == 0) { std::vector<bool> comp(n + 1, false); for (int j = 0; j < 4; j++) e[j] = 1; for (uint64_t p = 2; p <= n; p++) { if (comp[p]) continue; for (int j = 0; j < 4; j++) e[j] = ref::mulmod64(e[j], p, HP[j]); for (uint64_t q = p * p; q <= n; q += p) comp[q] = true; } }
+  else { auto fact = [&](uint64_t a, uint64_t m) { uint64_t r = 1; for (uint64_t i = 2; i <= a; i++) r = ref::mulmod64(r, i, m); return r; };
+    for (int j = 0; j < 4; j++) { uint64_t m = HP[j]; if (f == 1) e[j] = fact(n, m); else { uint64_t d = ref::mulmod64(fact(k, m), fact(n - k, m), m); e[j] = ref::mulmod64(fact(n, m), ref::powmod64(d, m - 2, m), m); } } }
+  Z r; if (f == 0) mpz_primorial_ui(r, n); else if (f == 1) mpz_fac_ui(r, n); else mpz_bin_uiui(r, n, k);
+  REQUIRE_WF(r, "huge"); REQUIRE(r.z->_mp_size > 0, "result not positive");
+  for (int j = 0; j < 4; j++) REQUIRE(mod_limbs((const uint64_t*)r.z->_mp_d, (size_t)r.z->_mp_size, HP[j]) == e[j], "%s(n=%llu%s): wrong value modulo %llu", f == 0 ? "mpz_primorial_ui" : f == 1 ? "mpz_fac_ui" : "mpz_bin_uiui", (unsigned long long)n, f == 2 ? (", k=" + std::to_string(k)).c_str() : "", (unsigned long long)HP[j]);
+}
+static void check(ByteSource& in, CaseInfo& ci) { if (in.scale >= 90 && (in.u8() ^ 0xA5u) < 4 && in.chance(128)) { case_huge(in, ci); return; }
+ switch (in.pick({5, 5, 4, 3, 8, 3})) { case 0: case_fac(in, ci); break; case 1: case_bin(in, ci); break; case 2: case_fib(in, ci); break; case 3: case_remove(in, ci); break; case 4: case_prime(in, ci); break; default: case_nextprime(in, ci); break; } }
 namespace eng {
 PropDef g_prop = {"C16",
-  "Cases: mpz_fac_ui/2fac_ui/mfac_uiui/primorial_ui (n dense to 120, around table ends and FAC thresholds, log-uniform to the scale cap; m in {1..12, n-1, n, n+1, > n}); mpz_bin_uiui on (n,k) shapes for each algorithm region (small, k near 0 or n, central, huge n with small k, k>n) and mpz_bin_ui with negative and multi-limb n; mpz_fib_ui/fib2_ui/lucnum_ui/lucnum2_ui (dense to 200, around 93/186 table limits, log-uniform beyond, n=0); mpz_remove (f>=2 only: 2, small, 2^j, multi-limb; multiplicity 0..thousands; negative op; aliasing); primality: all n < 70000, n near 2^16/2^31/2^32/2^53/2^63/2^64, random 64-bit, Chernick Carmichael numbers, strong pseudoprimes (psi values), squares and products of close primes, large primes of special form (Mersenne, 2^k+-c) and composites built from them; nextprime / next_prime_candidate incl. starts of large prime gaps and arguments next to 2^64. Oracle: refint by definition (product trees, multiplicative binomial with verified exact division, fast-doubling Fibonacci); deterministic Miller-Rabin for n < 2^81, construction knowledge beyond; checks: never 0 for a prime, never 2 for a composite, 0 for composites at reps>=25 / prob>=50, result > n with no prime strictly between. mpz_miller_rabin only on odd n >= 11. Non-trivial: result >= 2 limbs / n > 3. Distinct = hash of all decoded choices.",
-  check, setup_primes, {"carmichael", "strong_pseudoprime", "semiprime_close", "large_prime_special_form", "large_composite_special_form", "near_2^k", "bin:k_gt_n", "bin_ui:negative_n", "bin_ui:multi_limb_n", "mfac:m_gt_n", "fac:ge_dsc_threshold", "fib:n0", "large_gap_start", "remove:negative_op"}, nullptr, sweep_count, sweep_item,
+  "Cases: a rare class (~1 in 1300) of mpz_primorial_ui / mpz_fac_ui / mpz_bin_uiui with arguments 10^5..4*10^6 (thorough: 3*10^7; several blocks of the prime sieve) compared modulo four 61-bit primes with an own sieve / modular factorials; mpz_fac_ui/2fac_ui/mfac_uiui/primorial_ui (n dense to 120, around table ends and FAC thresholds, log-uniform to the scale cap; m in {1..12, n-1, n, n+1, > n}); mpz_bin_uiui on (n,k) shapes for each algorithm region (small, k near 0 or n, central, huge n with small k, k>n) and mpz_bin_ui with negative and multi-limb n; mpz_fib_ui/fib2_ui/lucnum_ui/lucnum2_ui (dense to 200, around 93/186 table limits, log-uniform beyond, n=0); mpz_remove (f>=2 only: 2, small, 2^j, multi-limb; multiplicity 0..thousands; negative op; aliasing); primality: all n < 70000, n near 2^16/2^31/2^32/2^53/2^63/2^64, random 64-bit, Chernick Carmichael numbers, strong pseudoprimes (psi values), squares and products of close primes, large primes of special form (Mersenne, 2^k+-c) and composites built from them; nextprime / next_prime_candidate incl. starts of large prime gaps and arguments next to 2^64. Oracle: refint by definition (product trees, multiplicative binomial with verified exact division, fast-doubling Fibonacci); deterministic Miller-Rabin for n < 2^81, construction knowledge beyond; checks: never 0 for a prime, never 2 for a composite, 0 for composites at reps>=25 / prob>=50, result > n with no prime strictly between. mpz_miller_rabin only on odd n >= 11. Non-trivial: result >= 2 limbs / n > 3. Distinct = hash of all decoded choices.",
+  check, setup_primes, {"huge_sieve_argument", "carmichael", "strong_pseudoprime", "semiprime_close", "large_prime_special_form", "large_composite_special_form", "near_2^k", "bin:k_gt_n", "bin_ui:negative_n", "bin_ui:multi_limb_n", "mfac:m_gt_n", "fac:ge_dsc_threshold", "fib:n0", "large_gap_start", "remove:negative_op"}, nullptr, sweep_count, sweep_item,
   "every n in [0,2^16): mpz_probab_prime_p (25 reps), mpz_probable_prime_p (prob 50), mpz_likely_prime_p, mpz_miller_rabin (odd n>=11), mpz_nextprime (exact next prime), mpz_next_prime_candidate; every n <= 1500: fac, 2fac, mfac m=3..5, primorial, fib, fib2, lucnum, lucnum2; every (n,k) in [0,89]x[0,94]: bin_uiui, bin_ui"};
 }
